@@ -119,6 +119,10 @@ def execute(mod, ch: Choices) -> dict:
         mod.run_one(run)
         out = run.outcome()
         out["error"] = None
+        if run.violations:
+            # the schedule and fault trace of a failing run go into the replay file (for the reader; replay consumes `choices`)
+            out["schedule"] = [{"sim": i, "config": s.describe(), "tasks_in_execution_order": s.sched.order[:400],
+                                "events": [list(e) for e in s.sched.log if e[0] != "run"][:200]} for i, s in enumerate(run.sims)]
     except HarnessError as e:
         out = run.outcome()
         out["error"] = f"{type(e).__name__}: {e}"
@@ -230,6 +234,14 @@ def shrink(mod, values, target_key, budget_runs=250, budget_s=150):
     return best, runs
 
 
+def _repo_commit():
+    try:
+        repo = os.environ.get("VERIF_REPO", "/repo")
+        return subprocess.check_output(["git", "-C", repo, "rev-parse", "--short", "HEAD"], text=True, stderr=subprocess.DEVNULL).strip()
+    except Exception:  # noqa: BLE001
+        return None
+
+
 def write_replay(prop, seed, values, out, v, tag=""):
     d = os.environ.get("VERIF_REPLAY_DIR") or os.path.join(VERIF, "replays")
     os.makedirs(d, exist_ok=True)
@@ -241,6 +253,9 @@ def write_replay(prop, seed, values, out, v, tag=""):
         "seed": seed, "choices": labelled, "scenario": out["scenario"],
         "event_digest": out["event_digest"], "result_digest": out["result_digest"],
         "stats": out["stats"],
+        "schedule": out.get("schedule", []),
+        "faults": out["scenario"].get("faults_fired", []) if isinstance(out["scenario"], dict) else [],
+        "abtem_commit": _repo_commit(),
     }
     with open(path, "w") as f:
         json.dump(doc, f, indent=1, default=str)
